@@ -13,7 +13,12 @@ RULE = ("conforming program (DESIGN §4.1) x edit operator of the violation cata
 
 @composite
 def case(d):
-    p = prog.gen_h(d) if d.bool(0.35) else prog.gen_c(d)
+    if d.bool(0.35):
+        p = prog.gen_h(d, {"force": ("cond-block",)} if d.bool(0.15) else None)
+    else:
+        # a share of the source files is made to carry the optional sections, so that their site classes are met in every run
+        force = d.weighted([(6, ()), (2, ("global",)), (1, ("define", "cond-block")), (1, ("forward-protos",)), (1, ("global", "forward-protos"))])
+        p = prog.gen_c(d, {"force": force} if force else None)
     return p, d.int(0, 10 ** 9)
 
 
